@@ -85,8 +85,12 @@ ShapeOK(src, k, s, e, a1) ==
                           /\ LET a == RunFrom(src, s+1, BTICK)  b == RunBack(src, e, BTICK) IN a = b /\ 2 * a <= n
        [] k = Link -> n >= 2 /\ B(1) = LBR /\ last \in {RBR, RPAREN}
        [] k = Image -> n >= 3 /\ B(1) = BANG /\ B(2) = LBR /\ last \in {RBR, RPAREN}
-       [] k \in {Autolink, HtmlTag} -> n >= 2 /\ B(1) = LT /\ last = GT
+       [] k = HtmlTag -> n >= 2 /\ B(1) = LT /\ last = GT
+       \* <...> around an absolute URI or an e-mail address: no white space and no further angle bracket inside
+       [] k = Autolink -> n >= 2 /\ B(1) = LT /\ last = GT /\ \A i \in 2..(n-1) : B(i) \notin {LT, GT, 32, 9, 10, 13}
+       \* ONE character reference: & then a name or #digits or #xhex (letters and digits only) then ;
        [] k = CharRef -> n >= 3 /\ B(1) = AMP /\ last = SEMI
+                         /\ \A i \in 2..(n-1) : B(i) \in (48..57) \cup (65..90) \cup (97..122) \/ (i = 2 /\ B(i) = 35)
        \* a backslash, or two or more spaces, WITH the line ending (exactly one: LF, CR or CRLF)
        [] k = Hard -> LET eol == IF n >= 2 /\ src[e-1] = 13 /\ last = 10 THEN 2 ELSE IF n >= 1 /\ last \in {10, 13} THEN 1 ELSE 0
                           m == n - eol
